@@ -626,7 +626,8 @@ cdef class ExtendedZOrderNNPS(ZOrderNNPS):
         return length
 
     cdef int _neighbor_boxes_func(self, int i, int j, int k,
-            int* current_key_to_idx, uint32_t* current_cids,
+            int* current_key_to_idx, uint32_t* current_pids,
+            uint32_t* current_cids,
             double* current_hmax, int num_particles,
             int* found_indices, double h):
         if self.asymmetric:
@@ -635,7 +636,7 @@ cdef class ExtendedZOrderNNPS(ZOrderNNPS):
                     found_indices, h)
         else:
             return self._neighbor_boxes_sym(i, j, k, current_key_to_idx,
-                    current_cids, current_hmax, num_particles,
+                    current_pids, current_cids, current_hmax, num_particles,
                     found_indices, h)
 
     cdef int _neighbor_boxes_asym(self, int i, int j, int k,
@@ -673,7 +674,8 @@ cdef class ExtendedZOrderNNPS(ZOrderNNPS):
 
     @cython.cdivision(True)
     cdef int _neighbor_boxes_sym(self, int i, int j, int k,
-            int* current_key_to_idx, uint32_t* current_cids,
+            int* current_key_to_idx, uint32_t* current_pids,
+            uint32_t* current_cids,
             double* current_hmax, int num_particles,
             int* found_indices, double h) noexcept nogil:
         cdef int length = 0
@@ -702,7 +704,9 @@ cdef class ExtendedZOrderNNPS(ZOrderNNPS):
                         if found_idx == -1:
                             continue
 
-                        cid = current_cids[found_idx]
+                        # found_idx is a position in the sorted order, the
+                        # cell ids are stored per particle id.
+                        cid = current_cids[current_pids[found_idx]]
 
                         h_local = self.radius_scale * fmax(current_hmax[cid], h)
                         H = <int> ceil(h_local / self.h_sub)
@@ -794,7 +798,7 @@ cdef class ExtendedZOrderNNPS(ZOrderNNPS):
                 )
 
             num_boxes = self._neighbor_boxes_func(c_x, c_y, c_z,
-                    current_key_to_idx, current_cids, current_hmax,
+                    current_key_to_idx, current_pids, current_cids, current_hmax,
                     num_particles, found_indices, current_hmax[cid])
 
             for k in range(num_boxes):
@@ -819,7 +823,7 @@ cdef class ExtendedZOrderNNPS(ZOrderNNPS):
                         )
 
                     num_boxes = self._neighbor_boxes_func(c_x, c_y, c_z,
-                            current_key_to_idx, current_cids, current_hmax,
+                            current_key_to_idx, current_pids, current_cids, current_hmax,
                             num_particles, found_indices, current_hmax[cid])
 
                     for k in range(num_boxes):
